@@ -27,6 +27,11 @@ from .extract import ModuleInfo, ClassInfo, ExtractError
 from .paths import PathEnd
 
 
+# bound-variable name -> (lo, hi) of every range quantifier built from contract text (used by the
+# bounded refuter to expand quantifiers on small ranges)
+QRANGES = {}
+
+
 class ReturnSig(Exception):
     def __init__(self, value):
         self.value = value
@@ -904,6 +909,7 @@ class Interp:
         finally:
             self.bound_names.discard(bname)
         rng = z3.And(as_int(lo) <= bound, bound < as_int(hi))
+        QRANGES[bname] = (as_int(lo), as_int(hi))
         if nm == "forall":
             return VBool(z3.ForAll([bound], z3.Implies(rng, body)))
         return VBool(z3.Exists([bound], z3.And(rng, body)))
